@@ -96,3 +96,9 @@ Example startup_examples :
   startup "1" SDone (mkDisk None [("ab"%string, [1])]) = mkDisk (Some "1"%string) [] /\
   startup "1" SDone (mkDisk (Some "1"%string) [("ab"%string, [1])]) = mkDisk (Some "1"%string) [("ab"%string, [1])].
 Proof. repeat split; reflexivity. Qed.
+
+(* build_node derives the store's encryption seed from the node's identity alone (first 16 bytes of the
+   serialised peer id): the same identity re-opens the store with the same cipher key -- which is what
+   `crash` / `restart_via_startup` assume by re-opening under the same environment E *)
+Lemma seed_is_function_of_identity : Consts.rs_seed_from_identity = true.
+Proof. reflexivity. Qed.
